@@ -133,6 +133,9 @@ func (s c05script) build(qid int) *hs.Prog {
 				}
 			case oComplete:
 				op.Tag = fmt.Sprintf("TAG %d %d", si, oi)
+				if (qid+oi)%5 == 0 {
+					op.Tag = strings.Repeat("t", []int{63, 64, 65, 127, 128, 255, 256}[(qid+si+oi)%7])
+				}
 			case oErr:
 				op.Err = &hs.ErrSpec{Base: fmt.Sprintf("stmt failure %d.%d", si, oi), Wraps: []hs.Wrap{{K: 'c', S: "22000"}}}
 			}
